@@ -16,7 +16,7 @@ pub mod seqprops;
 pub fn units(id: &str, tier: &str) -> Option<Vec<Unit>> {
     let thorough = tier == "thorough";
     Some(match id {
-        "C01" => { let mut v = seqprops::c01(thorough); v.push(c15::limits_unit(thorough)); v.push(seqprops::deadline_walk(thorough)); v.extend(seqprops::core_units(thorough)); v.extend(schedprops::c01_sched(thorough)); v }
+        "C01" => { let mut v = seqprops::c01(thorough); v.push(c15::limits_unit(thorough)); v.push(seqprops::deadline_walk(thorough)); v.push(seqprops::big_batch_expiry_race(thorough)); v.extend(seqprops::core_units(thorough)); v.extend(schedprops::c01_sched(thorough)); v }
         "C02" => { let mut v = seqprops::c02(thorough); v.extend(seqprops::core_units(thorough)); v.extend(schedprops::c02_sched(thorough)); v }
         "C03" => { let mut v = c03::units(thorough); v.extend(seqprops::core_units(thorough)); v.extend(seqprops::stream_units(thorough)); v }
         "C04" => { let mut v = seqprops::c04(thorough); v.extend(seqprops::core_units(thorough)); v }
@@ -26,7 +26,7 @@ pub fn units(id: &str, tier: &str) -> Option<Vec<Unit>> {
         "C08" => { let mut v = seqprops::c08(thorough); v.extend(schedprops::c08_sched(thorough)); v }
         "C09" => c09::units(thorough),
         "C10" => { let mut v = seqprops::c10(thorough); v.extend(schedprops::c10_sched(thorough)); v }
-        "C11" => { let mut v = seqprops::c11(thorough); v.extend(schedprops::c11_sched(thorough)); v }
+        "C11" => { let mut v = seqprops::c11(thorough); v.extend(schedprops::c11_sched(thorough)); v.push(c14::interference_unit()); v }
         "C12" => c12::units(thorough),
         "C13" => c13::units(thorough),
         "C14" => c14::units(thorough),
